@@ -1,6 +1,7 @@
 import SfVerif.Model.Writer
 import SfVerif.Lemmas.Codes
 import SfVerif.Lemmas.Zipper
+import SfVerif.Lemmas.GenFnsState
 /-! C03 — the writer enforces the document grammar; a rejected call changes nothing. -/
 namespace SfVerif.Props.C03
 open SfVerif SfVerif.Gen
@@ -59,5 +60,26 @@ theorem C03_grammar_reject_noop (g : G) (t : Tok) (h : (g.step t).2 ≠ WriteRes
 /-- non-vacuity: a reachable state two containers deep with a key waiting -/
 example : Reachable { out := #[0x91, 0x82, 0xa0], st := .obj 2 1, stack := [.arr 1 1] } :=
   ⟨[.arr 1, .obj 2, .strAlloc 0], by simp [Writer.run, Writer.step, WState.startContainer, WState.writeString, WState.arrWriteValue, WState.objWriteString, Writer.appendBytes, encArrLen, encMapLen, encStrLen]⟩
+
+/-- **tie by translation**: the model of the write state machine is equal, method by method, to
+    the definitions regenerated from the function bodies of provider/src/write/state.rs
+    (`ObjectState::write_string`, `ObjectState::write_non_string_value`, `ArrayState::write_value`,
+    `State::write_string`, `write_non_string_scalar`, `start_object`, `start_array`,
+    `finish_object`, `finish_array`; `swap_and_push` and the data declarations are checked for
+    their shape) — so the refinement theorems above are about what the source says now -/
+theorem C03_state_machine_is_the_source_text (l n len : Nat) (st : WState) (stack : List WState) :
+    WState.objWriteString l n = (.obj l (obj_write_string l n).2, (obj_write_string l n).1) ∧
+    WState.objWriteNonString l n = (.obj l (obj_write_non_string_value l n).2, (obj_write_non_string_value l n).1) ∧
+    WState.arrWriteValue l n = (.arr l (arr_write_value l n).2, (arr_write_value l n).1) ∧
+    state_write_string st stack = ((WState.writeString st).1, stack, (WState.writeString st).2) ∧
+    state_write_non_string_scalar st stack = ((WState.writeNonStringScalar st).1, stack, (WState.writeNonStringScalar st).2) ∧
+    state_start_object len st stack = WState.startContainer (.obj len 0) st stack ∧
+    state_start_array len st stack = WState.startContainer (.arr len 0) st stack ∧
+    state_finish_object st stack = WState.finishObject st stack ∧
+    state_finish_array st stack = WState.finishArray st stack :=
+  ⟨gen_obj_write_string_eq l n, gen_obj_write_non_string_eq l n, gen_arr_write_value_eq l n,
+   gen_state_write_string_eq st stack, gen_state_write_non_string_scalar_eq st stack,
+   gen_state_start_object_eq len st stack, gen_state_start_array_eq len st stack,
+   gen_state_finish_object_eq st stack, gen_state_finish_array_eq st stack⟩
 
 end SfVerif.Props.C03
